@@ -17,6 +17,7 @@ import RtamtProofs.GenDenseOnInter
 import RtamtProofs.GenDenseOnBin
 import RtamtProofs.GenDenseOnUn
 import RtamtProofs.GenDenseOnTimed
+import RtamtProofs.Dense.OnMain
 
 namespace Rtamt.Py.DnOn
 open Rtamt Val Rtamt.Dense Rtamt.Dense.Alg Rtamt.Dense.AlgOn
@@ -724,33 +725,42 @@ theorem gen_hist_timed_updateObj (fuel : Nat) (a b : Rat) (st : TimedSt α) (o :
       refine ⟨o', ?_, hr⟩
       simp only [updateObj, hd, hist_timed_update_name, List.map_cons, List.map_nil, h]; simp
 
-/-- (b) one `update()`: whenever the mirror returns a list, the translated classes return the same list and the new trees
-    are related again. -/
-theorem genOn_step (cfg : DCfg) (φ : F α) (hφ : φ.onSupported = true) (st : OnSt α) (g : GSt α) (hrel : StRel φ cfg st g)
+namespace GOn
+
+/-- `genOn_step` with a fuel bound that does not depend on the tree of objects (it is computed from the mirror's state and
+    the batches the mirror hands from node to node) -/
+theorem step_unif (cfg : DCfg) (φ : F α) (hφ : φ.onSupported = true) (st : OnSt α)
     (inp : String → ASig α) (st' : OnSt α) (out : ASig α) (h : stepOn cfg inp φ st = .ok (st', out))
     (hH : HistOK cfg inp φ st) :
-    ∃ N, ∀ fuel, N ≤ fuel → ∃ g', stepOnG fuel inp φ g = .ok (g', out) ∧ StRel φ cfg st' g' := by
-  induction φ generalizing st g st' out with
+    ∃ N, ∀ g, StRel φ cfg st g → ∀ fuel, N ≤ fuel →
+      ∃ g', stepOnG fuel inp φ g = .ok (g', out) ∧ StRel φ cfg st' g' := by
+  induction φ generalizing st st' out with
   | var x =>
+      refine ⟨0, fun g hrel fuel _ => ?_⟩
       obtain ⟨rfl, rfl⟩ := hrel
       simp only [stepOn] at h; cases h
-      exact ⟨0, fun fuel _ => ⟨.leaf, rfl, rfl, rfl⟩⟩
+      exact ⟨.leaf, rfl, rfl, rfl⟩
   | const c =>
+      refine ⟨0, fun g hrel fuel _ => ?_⟩
       obtain ⟨sent, rfl, rfl⟩ := hrel
       simp only [stepOn] at h; cases h
-      exact ⟨0, fun fuel _ => ⟨.cst true, rfl, true, rfl, rfl⟩⟩
+      exact ⟨.cst true, rfl, true, rfl, rfl⟩
   | un op φ ih =>
-      obtain ⟨c, o, gc, rfl, rfl, hro, hrc⟩ := hrel
+      cases st <;> first | (simp [stepOn] at h; done) | skip
+      rename_i c
       simp only [stepOn, bind_ok_iff] at h
       obtain ⟨⟨c', s⟩, hc, out', hm, h⟩ := h
       cases h
-      obtain ⟨N, hN⟩ := ih hφ c gc hrc c' s hc (by simpa [HistOK] using hH)
-      refine ⟨N, fun fuel hf => ?_⟩
-      obtain ⟨gc', hg, hr'⟩ := hN fuel hf
+      obtain ⟨N, hN⟩ := ih hφ c c' s hc (by simpa [HistOK] using hH)
+      refine ⟨N, fun g hrel fuel hf => ?_⟩
+      obtain ⟨c0, o, gc, hst, rfl, hro, hrc⟩ := hrel
+      cases hst
+      obtain ⟨gc', hg, hr'⟩ := hN gc hrc fuel hf
       refine ⟨.un o gc', ?_, c', o, gc', rfl, rfl, hro, hr'⟩
       simp [stepOnG, hg, updateObj_unop fuel op o hro s out hm]
   | bin op φ ψ ihφ ihψ =>
-      obtain ⟨bs, l, r, o, gl, gr, rfl, rfl, hro, hrl, hrr⟩ := hrel
+      cases st <;> first | (simp [stepOn] at h; done) | skip
+      rename_i bs l r
       simp only [F.onSupported, Bool.and_eq_true] at hφ
       obtain ⟨⟨hop, h1⟩, h2⟩ := hφ
       have hH' : HistOK cfg inp φ l ∧ HistOK cfg inp ψ r := by simpa [HistOK] using hH
@@ -759,11 +769,13 @@ theorem genOn_step (cfg : DCfg) (φ : F α) (hφ : φ.onSupported = true) (st : 
         simp only [bind_ok_iff] at h
         obtain ⟨⟨l', sl⟩, hl, ⟨r', sr⟩, hr, ⟨bs', o'⟩, hb, h⟩ := h
         cases h
-        obtain ⟨Nl, hNl⟩ := ihφ h1 l gl hrl l' sl hl hH'.1
-        obtain ⟨Nr, hNr⟩ := ihψ h2 r gr hrr r' sr hr hH'.2
-        refine ⟨max (max Nl Nr) (GOnBin.binFuel bs sl sr), fun fuel hf => ?_⟩
-        obtain ⟨gl', hgl, hrl'⟩ := hNl fuel (by omega)
-        obtain ⟨gr', hgr, hrr'⟩ := hNr fuel (by omega)
+        obtain ⟨Nl, hNl⟩ := ihφ h1 l l' sl hl hH'.1
+        obtain ⟨Nr, hNr⟩ := ihψ h2 r r' sr hr hH'.2
+        refine ⟨max (max Nl Nr) (GOnBin.binFuel bs sl sr), fun g hrel fuel hf => ?_⟩
+        obtain ⟨bs0, l0, r0, o, gl, gr, hst, rfl, hro, hrl, hrr⟩ := hrel
+        cases hst
+        obtain ⟨gl', hgl, hrl'⟩ := hNl gl hrl fuel (by omega)
+        obtain ⟨gr', hgr, hrr'⟩ := hNr gr hrr fuel (by omega)
         have hu := gen_binop_updateObj fuel op hp (gen_on_intersection fuel 4) bs o ((binObjRel_plain hp _ _).mp hro) sl sr
           (by omega)
         rw [hb] at hu
@@ -773,11 +785,13 @@ theorem genOn_step (cfg : DCfg) (φ : F α) (hφ : φ.onSupported = true) (st : 
       · simp only [stepOn, bind_ok_iff] at h
         obtain ⟨⟨l', sl⟩, hl, ⟨r', sr⟩, hr, ⟨bs', o'⟩, hb, h⟩ := h
         cases h
-        obtain ⟨Nl, hNl⟩ := ihφ h1 l gl hrl l' sl hl hH'.1
-        obtain ⟨Nr, hNr⟩ := ihψ h2 r gr hrr r' sr hr hH'.2
-        refine ⟨max (max Nl Nr) (GOnBin.binFuel bs sl sr), fun fuel hf => ?_⟩
-        obtain ⟨gl', hgl, hrl'⟩ := hNl fuel (by omega)
-        obtain ⟨gr', hgr, hrr'⟩ := hNr fuel (by omega)
+        obtain ⟨Nl, hNl⟩ := ihφ h1 l l' sl hl hH'.1
+        obtain ⟨Nr, hNr⟩ := ihψ h2 r r' sr hr hH'.2
+        refine ⟨max (max Nl Nr) (GOnBin.binFuel bs sl sr), fun g hrel fuel hf => ?_⟩
+        obtain ⟨bs0, l0, r0, o, gl, gr, hst, rfl, hro, hrl, hrr⟩ := hrel
+        cases hst
+        obtain ⟨gl', hgl, hrl'⟩ := hNl gl hrl fuel (by omega)
+        obtain ⟨gr', hgr, hrr'⟩ := hNr gr hrr fuel (by omega)
         have hu := gen_mulop_updateObj fuel (gen_on_intersection fuel 4) bs o hro sl sr (by omega)
         rw [hb] at hu
         obtain ⟨o2, hu, hro'⟩ := hu
@@ -786,11 +800,13 @@ theorem genOn_step (cfg : DCfg) (φ : F α) (hφ : φ.onSupported = true) (st : 
       · simp only [stepOn, bind_ok_iff] at h
         obtain ⟨⟨l', sl⟩, hl, ⟨r', sr⟩, hr, ⟨bs', d⟩, hb, h⟩ := h
         cases h
-        obtain ⟨Nl, hNl⟩ := ihφ h1 l gl hrl l' sl hl hH'.1
-        obtain ⟨Nr, hNr⟩ := ihψ h2 r gr hrr r' sr hr hH'.2
-        refine ⟨max (max Nl Nr) (GOnBin.binFuel bs sl sr), fun fuel hf => ?_⟩
-        obtain ⟨gl', hgl, hrl'⟩ := hNl fuel (by omega)
-        obtain ⟨gr', hgr, hrr'⟩ := hNr fuel (by omega)
+        obtain ⟨Nl, hNl⟩ := ihφ h1 l l' sl hl hH'.1
+        obtain ⟨Nr, hNr⟩ := ihψ h2 r r' sr hr hH'.2
+        refine ⟨max (max Nl Nr) (GOnBin.binFuel bs sl sr), fun g hrel fuel hf => ?_⟩
+        obtain ⟨bs0, l0, r0, o, gl, gr, hst, rfl, hro, hrl, hrr⟩ := hrel
+        cases hst
+        obtain ⟨gl', hgl, hrl'⟩ := hNl gl hrl fuel (by omega)
+        obtain ⟨gr', hgr, hrr'⟩ := hNr gr hrr fuel (by omega)
         have hu := gen_predop_updateObj fuel c (gen_on_intersection fuel 3) bs o hro sl sr (by omega)
         rw [hb] at hu
         obtain ⟨o2, hu, hro'⟩ := hu
@@ -799,54 +815,58 @@ theorem genOn_step (cfg : DCfg) (φ : F α) (hφ : φ.onSupported = true) (st : 
       · simp at hop
       · simp at hop
   | tmp1 op φ ih =>
-      obtain ⟨prev, c, o, gc, rfl, rfl, hro, hrc⟩ := hrel
+      cases st <;> first | (simp [stepOn] at h; done) | skip
+      rename_i prev c
       have hH' : HistOK cfg inp φ c := by simpa [HistOK] using hH
+      simp only [stepOn, bind_ok_iff] at h
+      obtain ⟨⟨c', s⟩, hc, h⟩ := h
+      obtain ⟨N, hN⟩ := ih hφ c c' s hc hH'
+      refine ⟨N, fun g hrel fuel hf => ?_⟩
+      obtain ⟨prev0, c0, o, gc, hst, rfl, hro, hrc⟩ := hrel
+      cases hst
+      obtain ⟨gc', hg, hr'⟩ := hN gc hrc fuel hf
       cases op <;> simp only [scanObjRel] at hro <;> try (exact hro.elim)
-      · simp only [stepOn, bind_ok_iff] at h
-        obtain ⟨⟨c', s⟩, hc, h⟩ := h
-        cases h
-        obtain ⟨N, hN⟩ := ih hφ c gc hrc c' s hc hH'
-        refine ⟨N, fun fuel hf => ?_⟩
-        obtain ⟨gc', hg, hr'⟩ := hN fuel hf
+      · cases h
         obtain ⟨o2, hu, hro'⟩ := updateObj_OnceOperation fuel prev o hro s
         refine ⟨.un o2 gc', ?_, _, c', o2, gc', rfl, rfl, hro', hr'⟩
         simp [stepOnG, hg, hu]
-      · simp only [stepOn, bind_ok_iff] at h
-        obtain ⟨⟨c', s⟩, hc, h⟩ := h
-        cases h
-        obtain ⟨N, hN⟩ := ih hφ c gc hrc c' s hc hH'
-        refine ⟨N, fun fuel hf => ?_⟩
-        obtain ⟨gc', hg, hr'⟩ := hN fuel hf
+      · cases h
         obtain ⟨o2, hu, hro'⟩ := updateObj_HistoricallyOperation fuel prev o hro s
         refine ⟨.un o2 gc', ?_, _, c', o2, gc', rfl, rfl, hro', hr'⟩
         simp [stepOnG, hg, hu]
   | tmp2 op φ ψ ihφ ihψ =>
-      obtain ⟨ss, l, r, o, gl, gr, rfl, rfl, rfl, hro, hrl, hrr⟩ := hrel
+      cases st <;> first | (simp [stepOn] at h; done) | skip
+      rename_i ss l r
       simp only [F.onSupported, Bool.and_eq_true] at hφ
       obtain ⟨h1, h2⟩ := hφ
       have hH' : HistOK cfg inp φ l ∧ HistOK cfg inp ψ r := by simpa [HistOK] using hH
       simp only [stepOn, bind_ok_iff] at h
       obtain ⟨⟨l', sl⟩, hl, ⟨r', sr⟩, hr, h⟩ := h
       cases h
-      obtain ⟨Nl, hNl⟩ := ihφ h1 l gl hrl l' sl hl hH'.1
-      obtain ⟨Nr, hNr⟩ := ihψ h2 r gr hrr r' sr hr hH'.2
-      refine ⟨max (max Nl Nr) (ss.bufA.length + sl.length + ss.bufB.length + sr.length + 1), fun fuel hf => ?_⟩
-      obtain ⟨gl', hgl, hrl'⟩ := hNl fuel (by omega)
-      obtain ⟨gr', hgr, hrr'⟩ := hNr fuel (by omega)
+      obtain ⟨Nl, hNl⟩ := ihφ h1 l l' sl hl hH'.1
+      obtain ⟨Nr, hNr⟩ := ihψ h2 r r' sr hr hH'.2
+      refine ⟨max (max Nl Nr) (ss.bufA.length + sl.length + ss.bufB.length + sr.length + 1), fun g hrel fuel hf => ?_⟩
+      obtain ⟨ss0, l0, r0, o, gl, gr, hst, rfl, rfl, hro, hrl, hrr⟩ := hrel
+      cases hst
+      obtain ⟨gl', hgl, hrl'⟩ := hNl gl hrl fuel (by omega)
+      obtain ⟨gr', hgr, hrr'⟩ := hNr gr hrr fuel (by omega)
       obtain ⟨o2, hu, hro'⟩ := updateObj_SinceOperation fuel ss o hro sl sr (by omega)
       refine ⟨.bin o2 gl' gr', ?_, _, l', r', o2, gl', gr', rfl, rfl, rfl, hro', hrl', hrr'⟩
       simp [stepOnG, hgl, hgr, hu]
   | tb1 op a b φ ih =>
-      obtain ⟨ts, c, o, gc, rfl, rfl, hro, hrc⟩ := hrel
+      cases st <;> first | (simp [stepOn] at h; done) | skip
+      rename_i ts c
       have hH' : HistOK cfg inp φ c ∧ (op = .hist → ts.rs = none → ∀ c' s, stepOn cfg inp φ c = .ok (c', s) →
           ∀ t v rest, s = (t, v) :: rest → t ≠ .inf) := by simpa [HistOK] using hH
-      cases op <;> simp only [timedObjRel] at hro <;> try (exact hro.elim)
+      cases op
       · simp only [stepOn, bind_ok_iff] at h
         obtain ⟨⟨c', s⟩, hc, ⟨ts', out'⟩, hb, h⟩ := h
         cases h
-        obtain ⟨N, hN⟩ := ih hφ c gc hrc c' s hc hH'.1
-        refine ⟨max N (GOnTimed.G ts s), fun fuel hf => ?_⟩
-        obtain ⟨gc', hg, hr'⟩ := hN fuel (by omega)
+        obtain ⟨N, hN⟩ := ih hφ c c' s hc hH'.1
+        refine ⟨max N (GOnTimed.G ts s), fun g hrel fuel hf => ?_⟩
+        obtain ⟨ts0, c0, o, gc, hst, rfl, hro, hrc⟩ := hrel
+        cases hst
+        obtain ⟨gc', hg, hr'⟩ := hN gc hrc fuel (by omega)
         have hu := gen_once_timed_updateObj fuel (a * cfg.scale) (b * cfg.scale) ts o hro s (by omega)
         rw [hb] at hu
         obtain ⟨o2, hu, hro'⟩ := hu
@@ -855,17 +875,22 @@ theorem genOn_step (cfg : DCfg) (φ : F α) (hφ : φ.onSupported = true) (st : 
       · simp only [stepOn, bind_ok_iff] at h
         obtain ⟨⟨c', s⟩, hc, ⟨ts', out'⟩, hb, h⟩ := h
         cases h
-        obtain ⟨N, hN⟩ := ih hφ c gc hrc c' s hc hH'.1
-        refine ⟨max N (GOnTimed.G ts s), fun fuel hf => ?_⟩
-        obtain ⟨gc', hg, hr'⟩ := hN fuel (by omega)
+        obtain ⟨N, hN⟩ := ih hφ c c' s hc hH'.1
+        refine ⟨max N (GOnTimed.G ts s), fun g hrel fuel hf => ?_⟩
+        obtain ⟨ts0, c0, o, gc, hst, rfl, hro, hrc⟩ := hrel
+        cases hst
+        obtain ⟨gc', hg, hr'⟩ := hN gc hrc fuel (by omega)
         have hu := gen_hist_timed_updateObj fuel (a * cfg.scale) (b * cfg.scale) ts o hro s
           (fun hn => hH'.2 rfl hn c' s hc) (by omega)
         rw [hb] at hu
         obtain ⟨o2, hu, hro'⟩ := hu
         refine ⟨.un o2 gc', ?_, _, c', o2, gc', rfl, rfl, hro', hr'⟩
         simp [stepOnG, hg, hu]
+      · exact ⟨0, fun g hrel _ _ => by obtain ⟨_, _, _, _, _, _, hro, _⟩ := hrel; exact hro.elim⟩
+      · exact ⟨0, fun g hrel _ _ => by obtain ⟨_, _, _, _, _, _, hro, _⟩ := hrel; exact hro.elim⟩
   | tb2 op a b φ ψ ihφ ihψ =>
-      obtain ⟨o, s, hh, an, l, r, obj, gl, gr, rfl, rfl, rfl, hro, hrl, hrr⟩ := hrel
+      cases st <;> first | (simp [stepOn] at h; done) | skip
+      rename_i o s hh an l r
       simp only [F.onSupported, Bool.and_eq_true] at hφ
       obtain ⟨h1, h2⟩ := hφ
       have hH' : HistOK cfg inp φ l ∧ HistOK cfg inp ψ r ∧
@@ -874,11 +899,13 @@ theorem genOn_step (cfg : DCfg) (φ : F α) (hφ : φ.onSupported = true) (st : 
       simp only [stepOn, bind_ok_iff] at h
       obtain ⟨⟨l', sl⟩, hl, ⟨r', sr⟩, hr, ⟨o', out1⟩, hb1, ⟨h', out3⟩, hb3, ⟨an', out'⟩, hb4, h⟩ := h
       cases h
-      obtain ⟨Nl, hNl⟩ := ihφ h1 l gl hrl l' sl hl hH'.1
-      obtain ⟨Nr, hNr⟩ := ihψ h2 r gr hrr r' sr hr hH'.2.1
-      refine ⟨max (max Nl Nr) (sinceTFuel (a * cfg.scale) (b * cfg.scale) o s hh an sl sr), fun fuel hf => ?_⟩
-      obtain ⟨gl', hgl, hrl'⟩ := hNl fuel (by omega)
-      obtain ⟨gr', hgr, hrr'⟩ := hNr fuel (by omega)
+      obtain ⟨Nl, hNl⟩ := ihφ h1 l l' sl hl hH'.1
+      obtain ⟨Nr, hNr⟩ := ihψ h2 r r' sr hr hH'.2.1
+      refine ⟨max (max Nl Nr) (sinceTFuel (a * cfg.scale) (b * cfg.scale) o s hh an sl sr), fun g hrel fuel hf => ?_⟩
+      obtain ⟨o0, s0, h0, an0, l0, r0, obj, gl, gr, hst, rfl, rfl, hro, hrl, hrr⟩ := hrel
+      cases hst
+      obtain ⟨gl', hgl, hrl'⟩ := hNl gl hrl fuel (by omega)
+      obtain ⟨gr', hgr, hrr'⟩ := hNr gr hrr fuel (by omega)
       have hu := gen_since_timed_updateObj fuel (a * cfg.scale) (b * cfg.scale) o s hh an obj hro sl sr
         (fun hn => hH'.2.2 hn l' sl r' sr hl hr) (by omega)
       have hst : sinceTUpdate (a * cfg.scale) (b * cfg.scale) o s hh an sl sr =
@@ -889,31 +916,394 @@ theorem genOn_step (cfg : DCfg) (φ : F α) (hφ : φ.onSupported = true) (st : 
       refine ⟨.bin o2 gl' gr', ?_, _, _, _, _, l', r', o2, gl', gr', rfl, rfl, rfl, hro', hrl', hrr'⟩
       simp [stepOnG, hgl, hgr, hu]
 
+end GOn
+
+/-- (b) one `update()`: whenever the mirror returns a list, the translated classes return the same list and the new trees
+    are related again. -/
+theorem genOn_step (cfg : DCfg) (φ : F α) (hφ : φ.onSupported = true) (st : OnSt α) (g : GSt α) (hrel : StRel φ cfg st g)
+    (inp : String → ASig α) (st' : OnSt α) (out : ASig α) (h : stepOn cfg inp φ st = .ok (st', out))
+    (hH : HistOK cfg inp φ st) :
+    ∃ N, ∀ fuel, N ≤ fuel → ∃ g', stepOnG fuel inp φ g = .ok (g', out) ∧ StRel φ cfg st' g' := by
+  obtain ⟨N, hN⟩ := step_unif cfg φ hφ st inp st' out h hH
+  exact ⟨N, hN g hrel⟩
+
 namespace GOn
 
 theorem go_run (cfg : DCfg) (φ : F α) (hφ : φ.onSupported = true) :
-    ∀ (batches : List (String → ASig α)) (st : OnSt α) (g : GSt α) (outs : List (ASig α)), StRel φ cfg st g →
+    ∀ (batches : List (String → ASig α)) (st : OnSt α) (outs : List (ASig α)),
       runOn.go cfg φ st batches = .ok outs → HistOKRun cfg φ st batches →
-      ∃ N, ∀ fuel, N ≤ fuel → runOnG.go fuel φ g batches = .ok outs := by
+      ∃ N, ∀ g, StRel φ cfg st g → ∀ fuel, N ≤ fuel → runOnG.go fuel φ g batches = .ok outs := by
   intro batches
   induction batches with
   | nil =>
-      intro st g outs _ h _
+      intro st outs h _
       simp only [runOn.go] at h; cases h
-      exact ⟨0, fun fuel _ => rfl⟩
+      exact ⟨0, fun g _ fuel _ => rfl⟩
   | cons b rest ih =>
-      intro st g outs hrel h hH
+      intro st outs h hH
       simp only [runOn.go, bind_ok_iff] at h
       obtain ⟨⟨st', out⟩, hst, outs', hrest, h⟩ := h
       cases h
       obtain ⟨hH1, hH2⟩ := hH
-      obtain ⟨N1, hN1⟩ := genOn_step cfg φ hφ st g hrel b st' out hst hH1
-      -- the bound of the remaining steps is uniform in the object tree reached (every sufficient fuel reaches a related tree)
-      refine ⟨N1 + (Classical.choose (p := fun N2 : Nat => ∀ fuel, N1 ≤ fuel → N2 ≤ fuel →
-          ∀ g', stepOnG fuel b φ g = .ok (g', out) → StRel φ cfg st' g' → runOnG.go fuel φ g' rest = .ok outs') ?_),
-        fun fuel hf => ?_⟩
-      · sorry
-      · sorry
+      obtain ⟨N1, hN1⟩ := step_unif cfg φ hφ st b st' out hst hH1
+      obtain ⟨N2, hN2⟩ := ih st' outs' hrest (hH2 st' out hst)
+      refine ⟨max N1 N2, fun g hrel fuel hf => ?_⟩
+      obtain ⟨g', hg, hrel'⟩ := hN1 g hrel fuel (by omega)
+      have hr := hN2 g' hrel' fuel (by omega)
+      simp [runOnG.go, hg, hr]
 
 end GOn
+
+/-- (b) a sequence of `update()` calls on a fresh monitor: whenever the mirror returns the lists `outs`, the translated
+    classes return the same lists, for every `fuel` above a bound (the maximum of the bounds of the steps). -/
+theorem genOn_run (cfg : DCfg) (φ : F α) (hφ : φ.onSupported = true) (batches : List (String → ASig α))
+    (outs : List (ASig α)) (h : runOn cfg φ batches = .ok outs)
+    (hH : ∀ st0, initOn φ = .ok st0 → HistOKRun cfg φ st0 batches) :
+    ∃ N, ∀ fuel, N ≤ fuel → runOnG fuel cfg φ batches = .ok outs := by
+  simp only [runOn, bind_ok_iff] at h
+  obtain ⟨st0, h0, hgo⟩ := h
+  obtain ⟨N0, hN0⟩ := genOn_init cfg φ hφ st0 h0
+  obtain ⟨N1, hN1⟩ := go_run cfg φ hφ batches st0 outs hgo (hH st0 h0)
+  refine ⟨max N0 N1, fun fuel hf => ?_⟩
+  obtain ⟨g, hg, hrel⟩ := hN0 fuel (by omega)
+  have := hN1 g hrel fuel (by omega)
+  simp [runOnG, hg, this]
+
+/-! ## (c) `HistOK` along the run on the fragment of C05, and C05 for the translated classes -/
+
+section c05
+open Rtamt.Dense.Alg.MainAux Rtamt.Dense.AlgOn.MainAux
+variable [LawfulVal α]
+
+namespace GOn
+
+/-- every list the node `φ` returns in the run from `st` has finite time stamps only -/
+def FinRun (cfg : DCfg) (φ : F α) : OnSt α → List (String → ASig α) → Prop
+  | _, [] => True
+  | st, b :: rest => ∀ st' out, stepOn cfg b φ st = .ok (st', out) →
+      (∀ p ∈ out, p.1 ≠ Tm.inf) ∧ FinRun cfg φ st' rest
+
+theorem runG_snoc {ι σ : Type} (step : σ → ι → Except PyErr (σ × ASig α)) (b : ι) :
+    ∀ (xs : List ι) (st st1 st2 : σ) (os : List (ASig α)) (o : ASig α),
+      runG step st xs = .ok (st1, os) → step st1 b = .ok (st2, o) → runG step st (xs ++ [b]) = .ok (st2, os ++ [o]) := by
+  intro xs
+  induction xs with
+  | nil =>
+      intro st st1 st2 os o h1 h2
+      obtain ⟨rfl, rfl⟩ := (runG_nil_ok step st st1 os).1 h1
+      exact (runG_cons_ok step _ _ b [] _).2 ⟨st2, o, [], h2, (runG_nil_ok step _ _ _).2 ⟨rfl, rfl⟩, rfl⟩
+  | cons x xs ih =>
+      intro st st1 st2 os o h1 h2
+      obtain ⟨sta, oa, osa, e1, e2, rfl⟩ := (runG_cons_ok step st st1 x xs os).1 h1
+      exact (runG_cons_ok step st st2 x (xs ++ [b]) _).2 ⟨sta, oa, osa ++ [o], e1, ih sta st1 st2 osa o e2 h2, rfl⟩
+
+theorem validChunks_prefix {w : DEnv α} {xs : List String} {pre post : List (String → ASig α)}
+    (h : ValidChunks w xs (pre ++ post)) : ValidChunks w xs pre := by
+  intro x hx
+  obtain ⟨rest, hr⟩ := h x hx
+  refine ⟨(post.map (fun b => b x)).flatten ++ rest, ?_⟩
+  rw [← hr]
+  simp [List.map_append, List.flatten_append, List.append_assoc]
+
+/-- on the fragment, every list a node returns has finite stamps (from `mirror_aux`, applied to every prefix of the run) -/
+theorem finRun_frag (cfg : DCfg) (hs : 0 ≤ cfg.scale) (w : DEnv α)
+    (hsub : ∀ a b : α, Val.neg (Val.sub a b) = Val.sub b a) (φ : F α) (hfrag : onFrag φ = true) (hw : w.WF φ.vars)
+    (h0 : StartsAt0 w φ.vars) (st0 : OnSt α) (hi : initOn φ = .ok st0) :
+    ∀ (bs pre : List (String → ASig α)) (st : OnSt α) (outsPre : List (ASig α)),
+      streamOf cfg φ st0 pre = .ok (st, outsPre) → ValidChunks w φ.vars (pre ++ bs) → FinRun cfg φ st bs := by
+  intro bs
+  induction bs with
+  | nil => intro _ _ _ _ _; trivial
+  | cons b rest ih =>
+      intro pre st outsPre hpre hch st' out hstep
+      have hpre' : streamOf cfg φ st0 (pre ++ [b]) = .ok (st', outsPre ++ [out]) :=
+        runG_snoc _ b pre st0 st st' outsPre out hpre hstep
+      have hch' : ValidChunks w φ.vars ((pre ++ [b]) ++ rest) := by
+        rw [List.append_assoc]; exact hch
+      refine ⟨?_, ih (pre ++ [b]) st' (outsPre ++ [out]) hpre' hch'⟩
+      have hok := mirror_aux cfg hs w hsub (pre ++ [b]) φ hfrag hw h0 (validChunks_prefix hch') st0 st' _ hi hpre'
+      exact hok.1.finite out (by simp)
+
+theorem histOKRun_leaf (cfg : DCfg) (φ : F α) (hφ : (∃ x, φ = .var x) ∨ ∃ c, φ = .const c) :
+    ∀ (bs : List (String → ASig α)) (st : OnSt α), HistOKRun cfg φ st bs := by
+  intro bs
+  induction bs with
+  | nil => intro _; trivial
+  | cons b rest ih =>
+      intro st
+      refine ⟨?_, fun st' out _ => ih st'⟩
+      rcases hφ with ⟨x, rfl⟩ | ⟨c, rfl⟩ <;> cases st <;> simp [HistOK]
+
+theorem histOKRun_un (cfg : DCfg) (op : Un) (φ : F α) :
+    ∀ (bs : List (String → ASig α)) (c : OnSt α), HistOKRun cfg φ c bs → HistOKRun cfg (.un op φ) (.un c) bs := by
+  intro bs
+  induction bs with
+  | nil => intro _ _; trivial
+  | cons b rest ih =>
+      rintro c ⟨h1, h2⟩
+      refine ⟨by simpa [HistOK] using h1, fun st' out hst => ?_⟩
+      obtain ⟨c', x, s', e1, _, rfl⟩ := (stepOn_un cfg op φ b () c st' out).1 hst
+      exact ih c' (h2 c' x e1)
+
+theorem histOKRun_bin (cfg : DCfg) (op : Bin) (φ ψ : F α) :
+    ∀ (bs : List (String → ASig α)) (st : BinSt α) (l r : OnSt α), HistOKRun cfg φ l bs → HistOKRun cfg ψ r bs →
+      HistOKRun cfg (.bin op φ ψ) (.bin st l r) bs := by
+  intro bs
+  induction bs with
+  | nil => intro _ _ _ _ _; trivial
+  | cons b rest ih =>
+      rintro st l r ⟨h1, h2⟩ ⟨k1, k2⟩
+      refine ⟨by simp only [HistOK]; exact ⟨h1, k1⟩, fun st' out hst => ?_⟩
+      obtain ⟨l', x, r', y, s', e1, e2, _, rfl⟩ := (stepOn_bin cfg op φ ψ b st l r st' out).1 hst
+      exact ih s' l' r' (h2 l' x e1) (k2 r' y e2)
+
+theorem histOKRun_scan (cfg : DCfg) (op : T1) (φ : F α) :
+    ∀ (bs : List (String → ASig α)) (p : α) (c : OnSt α), HistOKRun cfg φ c bs →
+      HistOKRun cfg (.tmp1 op φ) (.scan p c) bs := by
+  intro bs
+  induction bs with
+  | nil => intro _ _ _; trivial
+  | cons b rest ih =>
+      rintro p c ⟨h1, h2⟩
+      refine ⟨by simpa [HistOK] using h1, fun st' out hst => ?_⟩
+      simp only [stepOn, bind_ok_iff] at hst
+      obtain ⟨⟨c', s⟩, hc, hst⟩ := hst
+      cases hst
+      exact ih _ c' (h2 c' s hc)
+
+theorem histOKRun_since (cfg : DCfg) (op : T2) (φ ψ : F α) :
+    ∀ (bs : List (String → ASig α)) (st : SinceSt α) (l r : OnSt α), HistOKRun cfg φ l bs → HistOKRun cfg ψ r bs →
+      HistOKRun cfg (.tmp2 op φ ψ) (.since st l r) bs := by
+  intro bs
+  induction bs with
+  | nil => intro _ _ _ _ _; trivial
+  | cons b rest ih =>
+      rintro st l r ⟨h1, h2⟩ ⟨k1, k2⟩
+      refine ⟨by simp only [HistOK]; exact ⟨h1, k1⟩, fun st' out hst => ?_⟩
+      obtain ⟨l', x, r', y, s', e1, e2, _, rfl⟩ := (stepOn_since cfg op φ ψ b st l r st' out).1 hst
+      exact ih s' l' r' (h2 l' x e1) (k2 r' y e2)
+
+theorem histOKRun_timed (cfg : DCfg) (op : TB1) (a b' : Nat) (φ : F α) :
+    ∀ (bs : List (String → ASig α)) (ts : TimedSt α) (c : OnSt α), HistOKRun cfg φ c bs → FinRun cfg φ c bs →
+      HistOKRun cfg (.tb1 op a b' φ) (.timed ts c) bs := by
+  intro bs
+  induction bs with
+  | nil => intro _ _ _ _; trivial
+  | cons b rest ih =>
+      rintro ts c ⟨h1, h2⟩ hf
+      refine ⟨?_, fun st' out hst => ?_⟩
+      · simp only [HistOK]
+        refine ⟨h1, fun _ _ c' s hc t v rest' hs => ?_⟩
+        exact (hf c' s hc).1 (t, v) (by rw [hs]; simp)
+      · cases op <;> simp only [stepOn, bind_ok_iff] at hst <;>
+          (obtain ⟨⟨c', s⟩, hc, ⟨ts', out'⟩, _, hst⟩ := hst
+           cases hst
+           exact ih ts' c' (h2 c' s hc) (hf c' s hc).2)
+
+theorem histOKRun_sinceT (cfg : DCfg) (op : TB2) (a b' : Nat) (φ ψ : F α) :
+    ∀ (bs : List (String → ASig α)) (o : TimedSt α) (s : SinceSt α) (h : TimedSt α) (an : BinSt α) (l r : OnSt α),
+      HistOKRun cfg φ l bs → HistOKRun cfg ψ r bs → FinRun cfg (.tmp2 .since φ ψ) (.since s l r) bs →
+      HistOKRun cfg (.tb2 op a b' φ ψ) (.sinceT o s h an l r) bs := by
+  intro bs
+  induction bs with
+  | nil => intro _ _ _ _ _ _ _ _ _; trivial
+  | cons b rest ih =>
+      rintro o s h an l r ⟨h1, h2⟩ ⟨k1, k2⟩ hf
+      have hsin : ∀ l' sl r' sr, stepOn cfg b φ l = .ok (l', sl) → stepOn cfg b ψ r = .ok (r', sr) →
+          stepOn cfg b (.tmp2 .since φ ψ) (.since s l r) =
+            .ok (.since (sinceUpdate s sl sr).1 l' r', (sinceUpdate s sl sr).2) := by
+        intro l' sl r' sr e1 e2
+        exact (stepOn_since cfg .since φ ψ b s l r _ _).2 ⟨l', sl, r', sr, _, e1, e2, rfl, rfl⟩
+      refine ⟨?_, fun st' out hst => ?_⟩
+      · simp only [HistOK]
+        refine ⟨h1, k1, fun _ l' sl r' sr e1 e2 t v rest' hs => ?_⟩
+        exact (hf _ _ (hsin l' sl r' sr e1 e2)).1 (t, v) (by rw [hs]; simp)
+      · obtain ⟨l', x, r', y, s', e1, e2, e3, rfl⟩ :=
+          (stepOn_sinceT cfg op a b' φ ψ b (o, s, h, an) l r st' out).1 hst
+        obtain ⟨o', out1, h', out3, an', _, _, _, rfl⟩ := (sinceTStep_ok _ _ o s h an x y s' out).1 e3
+        exact ih o' _ h' an' l' r' (h2 l' x e1) (k2 r' y e2) (hf _ _ (hsin l' x r' y e1 e2)).2
+
+/-- `HistOK` holds along every run of the fragment of C05 -/
+theorem histOKRun_frag (cfg : DCfg) (hs : 0 ≤ cfg.scale) (w : DEnv α)
+    (hsub : ∀ a b : α, Val.neg (Val.sub a b) = Val.sub b a) (batches : List (String → ASig α)) :
+    ∀ (φ : F α), (onFrag φ = true ∨ isConst φ = true) → w.WF φ.vars → StartsAt0 w φ.vars →
+      ValidChunks w φ.vars batches → ∀ st0, initOn φ = .ok st0 → HistOKRun cfg φ st0 batches := by
+  intro φ
+  induction φ with
+  | var x => intro _ _ _ _ st0 _; exact histOKRun_leaf cfg _ (.inl ⟨x, rfl⟩) batches st0
+  | const c => intro _ _ _ _ st0 _; exact histOKRun_leaf cfg _ (.inr ⟨c, rfl⟩) batches st0
+  | un op φ ih =>
+      intro hfrag hw h0 hch st0 hi
+      have hfrag : onFrag φ = true := by
+        rcases hfrag with h | h
+        · simpa [onFrag] using h
+        · simp [isConst] at h
+      simp only [F.vars] at hw h0 hch
+      simp only [initOn] at hi
+      obtain ⟨c0, e0, hi⟩ := bind_ok hi
+      cases hi
+      exact histOKRun_un cfg op φ batches c0 (ih (.inl hfrag) hw h0 hch c0 e0)
+  | bin op φ ψ ih1 ih2 =>
+      intro hfrag hw h0 hch st0 hi
+      have hfrag : onFrag (.bin op φ ψ) = true := by
+        rcases hfrag with h | h
+        · exact h
+        · simp [isConst] at h
+      simp only [onFrag, Bool.and_eq_true, Bool.or_eq_true] at hfrag
+      simp only [F.vars] at hw h0 hch
+      obtain ⟨_, hz⟩ := frag_op hfrag.1
+      obtain ⟨l0, r0, e1, e2, rfl⟩ := (initOn_bin op hz φ ψ st0).1 hi
+      have hl : onFrag φ = true ∨ isConst φ = true := by
+        rcases hfrag.2 with (⟨a, _⟩ | ⟨a, _⟩) | ⟨a, _⟩
+        · exact .inl a
+        · exact .inr a
+        · exact .inl a
+      have hr : onFrag ψ = true ∨ isConst ψ = true := by
+        rcases hfrag.2 with (⟨_, b⟩ | ⟨_, b⟩) | ⟨_, b⟩
+        · exact .inl b
+        · exact .inl b
+        · exact .inr b
+      exact histOKRun_bin cfg op φ ψ batches _ l0 r0
+        (ih1 hl (wf_left hw) (startsAt0_left h0) (validChunks_left hch) l0 e1)
+        (ih2 hr (wf_right hw) (startsAt0_right h0) (validChunks_right hch) r0 e2)
+  | tmp1 op φ ih =>
+      intro hfrag hw h0 hch st0 hi
+      have hfrag : onFrag (.tmp1 op φ) = true := by
+        rcases hfrag with h | h
+        · exact h
+        · simp [isConst] at h
+      simp only [onFrag, Bool.and_eq_true] at hfrag
+      simp only [F.vars] at hw h0 hch
+      cases op <;> simp only [initOn] at hi <;> try (cases hi; done)
+      all_goals
+        obtain ⟨c0, e0, hi⟩ := bind_ok hi
+        cases hi
+        exact histOKRun_scan cfg _ φ batches _ c0 (ih (.inl hfrag.2) hw h0 hch c0 e0)
+  | tmp2 op φ ψ ih1 ih2 =>
+      intro hfrag hw h0 hch st0 hi
+      have hfrag : onFrag (.tmp2 op φ ψ) = true := by
+        rcases hfrag with h | h
+        · exact h
+        · simp [isConst] at h
+      simp only [onFrag, Bool.and_eq_true] at hfrag
+      simp only [F.vars] at hw h0 hch
+      cases op <;> simp only [initOn] at hi <;> try (cases hi; done)
+      obtain ⟨l0, e1, hi⟩ := bind_ok hi
+      obtain ⟨r0, e2, hi⟩ := bind_ok hi
+      cases hi
+      exact histOKRun_since cfg _ φ ψ batches _ l0 r0
+        (ih1 (.inl hfrag.1.2) (wf_left hw) (startsAt0_left h0) (validChunks_left hch) l0 e1)
+        (ih2 (.inl hfrag.2) (wf_right hw) (startsAt0_right h0) (validChunks_right hch) r0 e2)
+  | tb1 op a b φ ih =>
+      intro hfrag hw h0 hch st0 hi
+      have hfrag : onFrag (.tb1 op a b φ) = true := by
+        rcases hfrag with h | h
+        · exact h
+        · simp [isConst] at h
+      simp only [onFrag, Bool.and_eq_true, decide_eq_true_eq] at hfrag
+      simp only [F.vars] at hw h0 hch
+      cases op <;> simp only [initOn] at hi <;> try (cases hi; done)
+      all_goals
+        obtain ⟨c0, e0, hi⟩ := bind_ok hi
+        cases hi
+        exact histOKRun_timed cfg _ a b φ batches _ c0 (ih (.inl hfrag.2) hw h0 hch c0 e0)
+          (finRun_frag cfg hs w hsub φ hfrag.2 hw h0 c0 e0 batches [] c0 []
+            ((runG_nil_ok _ _ _ _).2 ⟨rfl, rfl⟩) hch)
+  | tb2 op a b φ ψ ih1 ih2 =>
+      intro hfrag hw h0 hch st0 hi
+      have hfrag : onFrag (.tb2 op a b φ ψ) = true := by
+        rcases hfrag with h | h
+        · exact h
+        · simp [isConst] at h
+      simp only [onFrag, Bool.and_eq_true, decide_eq_true_eq] at hfrag
+      have hw' := hw
+      have h0' := h0
+      have hch' := hch
+      simp only [F.vars] at hw h0 hch
+      cases op <;> simp only [initOn] at hi <;> try (cases hi; done)
+      obtain ⟨l0, e1, hi⟩ := bind_ok hi
+      obtain ⟨r0, e2, hi⟩ := bind_ok hi
+      cases hi
+      have hfs : onFrag (.tmp2 .since φ ψ) = true := by
+        simp only [onFrag, Bool.and_eq_true]; exact ⟨⟨trivial, hfrag.1.2⟩, hfrag.2⟩
+      have his : initOn (.tmp2 .since φ ψ) = .ok (.since { prev := Val.ninf } l0 r0) := by
+        simp only [initOn]
+        rw [bind_ok_eq e1, bind_ok_eq e2]; rfl
+      exact histOKRun_sinceT cfg _ a b φ ψ batches _ _ _ _ l0 r0
+        (ih1 (.inl hfrag.1.2) (wf_left hw) (startsAt0_left h0) (validChunks_left hch) l0 e1)
+        (ih2 (.inl hfrag.2) (wf_right hw) (startsAt0_right h0) (validChunks_right hch) r0 e2)
+        (finRun_frag cfg hs w hsub (.tmp2 .since φ ψ) hfs hw h0 _ his batches [] _ []
+          ((runG_nil_ok _ _ _ _).2 ⟨rfl, rfl⟩) hch)
+
+theorem onSupported_of_frag : ∀ (φ : F α), (onFrag φ = true ∨ isConst φ = true) → φ.onSupported = true := by
+  intro φ
+  induction φ with
+  | var x => intro _; rfl
+  | const c => intro _; rfl
+  | un op φ ih =>
+      rintro (h | h)
+      · exact ih (.inl (by simpa [onFrag] using h))
+      · simp [isConst] at h
+  | bin op φ ψ ih1 ih2 =>
+      rintro (h | h)
+      · simp only [onFrag, Bool.and_eq_true, Bool.or_eq_true] at h
+        simp only [F.onSupported, Bool.and_eq_true]
+        refine ⟨⟨h.1, ih1 ?_⟩, ih2 ?_⟩
+        · rcases h.2 with (⟨a, _⟩ | ⟨a, _⟩) | ⟨a, _⟩
+          · exact .inl a
+          · exact .inr a
+          · exact .inl a
+        · rcases h.2 with (⟨_, b⟩ | ⟨_, b⟩) | ⟨_, b⟩
+          · exact .inl b
+          · exact .inl b
+          · exact .inr b
+      · simp [isConst] at h
+  | tmp1 op φ ih =>
+      rintro (h | h)
+      · simp only [onFrag, Bool.and_eq_true] at h; exact ih (.inl h.2)
+      · simp [isConst] at h
+  | tmp2 op φ ψ ih1 ih2 =>
+      rintro (h | h)
+      · simp only [onFrag, Bool.and_eq_true] at h
+        simp only [F.onSupported, Bool.and_eq_true]
+        exact ⟨ih1 (.inl h.1.2), ih2 (.inl h.2)⟩
+      · simp [isConst] at h
+  | tb1 op a b φ ih =>
+      rintro (h | h)
+      · simp only [onFrag, Bool.and_eq_true] at h; exact ih (.inl h.2)
+      · simp [isConst] at h
+  | tb2 op a b φ ψ ih1 ih2 =>
+      rintro (h | h)
+      · simp only [onFrag, Bool.and_eq_true] at h
+        simp only [F.onSupported, Bool.and_eq_true]
+        exact ⟨ih1 (.inl h.1.2), ih2 (.inl h.2)⟩
+      · simp [isConst] at h
+
+end GOn
+
+/-- (c) C05 for the translated classes: on the fragment `onFrag`, for well-formed signals that start at 0 and every valid
+    chunking, whenever the mirror returns `outs`, the monitor run through the classes translated from the Python source returns
+    the same lists for every `fuel` above a bound, and they are the dense-time semantics (`StreamOK`). -/
+theorem C05_translated_partial (cfg : DCfg) (hs : 0 ≤ cfg.scale) (w : DEnv α) (φ : F α)
+    (hfrag : onFrag φ = true) (hw : w.WF φ.vars) (h0 : StartsAt0 w φ.vars)
+    (hsub : ∀ a b : α, Val.neg (Val.sub a b) = Val.sub b a)
+    (batches : List (String → ASig α)) (hch : ValidChunks w φ.vars batches)
+    {outs : List (ASig α)} (he : runOn cfg φ batches = .ok outs) :
+    ∃ N, ∀ fuel, N ≤ fuel → runOnG fuel cfg φ batches = .ok outs ∧ StreamOK outs 0 (rhoD cfg w φ) := by
+  obtain ⟨N, hN⟩ := genOn_run cfg φ (onSupported_of_frag φ (.inl hfrag)) batches outs he
+    (fun st0 hi => histOKRun_frag cfg hs w hsub batches φ (.inl hfrag) hw h0 hch st0 hi)
+  exact ⟨N, fun fuel hf => ⟨hN fuel hf, C05_online_mirror_partial cfg hs w φ hfrag hw h0 hsub batches hch he⟩⟩
+
+/-- (c) without `sqrt` / `ln` the run raises nothing: there are such lists. -/
+theorem C05_translated_total_partial (cfg : DCfg) (hs : 0 ≤ cfg.scale) (w : DEnv α) (φ : F α)
+    (hfrag : onFrag φ = true) (hnp : noPartialOps φ = true) (hw : w.WF φ.vars) (h0 : StartsAt0 w φ.vars)
+    (hsub : ∀ a b : α, Val.neg (Val.sub a b) = Val.sub b a)
+    (batches : List (String → ASig α)) (hch : ValidChunks w φ.vars batches) :
+    ∃ N, ∀ fuel, N ≤ fuel → ∃ outs, runOnG fuel cfg φ batches = .ok outs ∧ StreamOK outs 0 (rhoD cfg w φ) := by
+  obtain ⟨outs, he⟩ := C05_online_total_partial cfg hs w φ hfrag hnp hw h0 batches hch
+  obtain ⟨N, hN⟩ := C05_translated_partial cfg hs w φ hfrag hw h0 hsub batches hch he
+  exact ⟨N, fun fuel hf => ⟨outs, hN fuel hf⟩⟩
+
+end c05
+
 end Rtamt.Py.DnOn
